@@ -255,7 +255,7 @@ impl Property for C13 {
         "well-formed SEM programs (see C05; no probes) must produce no diagnostic in any file; then one fault is seeded per case (see the fault classes in the family names) and >=1 diagnostic must intersect the seeded site in the seeded file, and no diagnostic may appear in files the fault does not touch. distinct = (seed, n, fault); non-trivial = program with >=3 declaration kinds and >=1 bang operator (clean), or any seeded case".into()
     }
     fn families(&self, ctx: &Ctx) -> Vec<Family> {
-        let mut v = vec![Family::new("well-formed", ctx.tier.pick(400, 6000), |_c, rng, emit| {
+        let mut v = vec![Family::new("well-formed", ctx.tier.pick(400, 20000), |_c, rng, emit| {
             for _ in 0..50 {
                 if !emit(sem_case(rng, false)) {
                     return;
@@ -263,7 +263,7 @@ impl Property for C13 {
             }
         })];
         for class in FAULTS {
-            v.push(Family::new(&format!("fault:{class}"), ctx.tier.pick(60, 800), move |_c, rng, emit| {
+            v.push(Family::new(&format!("fault:{class}"), ctx.tier.pick(60, 3000), move |_c, rng, emit| {
                 for _ in 0..50 {
                     let mut c = sem_case(rng, false);
                     c["fault"] = json!({"class": class, "pick": rng.below(1000)});
